@@ -4,7 +4,7 @@ import signal
 
 from hypothesis import strategies as st
 
-from .. import graph, model, projgen
+from .. import graph, model, projgen, reallayer
 from ..runner import Outcome
 
 ID = "C16"
@@ -15,7 +15,12 @@ RULE = ("Graph cases (JOBS>=2 biased, experiments, teed and slot modes) x schedu
         "Quick: k drawn by Hypothesis for generated scenarios + a stride sweep over every 3rd line of 3 fixed "
         "scenarios; thorough: every line of the fixed scenarios and of generated ones. Non-trivial = at the injection "
         "some task process was running (started, not exited) or had exited but its completion was not yet processed. "
-        "Distinct = SHA-1 of (case, k, signal).")
+        "Distinct = SHA-1 of (case, k, signal)."
+        " One generated case in 12 (label real_processes) is a REAL interrupt: real bash tasks that sleep 0-1.5 s, and a real SIGINT/SIGTERM sent "
+        "to the cond process a generated 0-100 ms after the n-th line of the shared O_APPEND log (Conductor's prints, task start/end/"
+        "TERM-trap lines) has appeared; such a signal lands wherever the main thread happens to be, also inside C calls. Judged there: no "
+        "task outlives cond (no task end line after cond has returned), non-zero exit with the abort diagnostic unless the whole run had "
+        "already completed, no version row for a task that did not finish; non-trivial = a task process was running when the signal was sent.")
 ASSUMPTIONS = ["granularity is one Python line of conductor code or of subprocess.py; signals landing inside C calls or inside other "
                "standard-library modules are represented by the line that made the call",
                "a SIGTERMed virtual child dies at once",
@@ -76,7 +81,9 @@ def _strategy(draw, tier):
 
 
 def strategy(tier):
-    return _strategy(tier)
+    real = st.one_of(reallayer.real_case(signal_mode=True, flags=("again",), jobs=(None, 1, 2, 2, 3, 3, 4)),
+                     reallayer.real_case(signal_mode=True, layered=True, outcomes="none"))
+    return reallayer.mixed(_strategy(tier), real, share=12)
 
 
 def examples(tier):
@@ -116,7 +123,61 @@ def enumerate_cases(tier, w, nworkers):
                 idx += 1
 
 
+def check_real(case, res):
+    """A real signal sent to a real `cond run` with real task processes (vf/reallayer.py)."""
+    obs = graph.Obs(case, res)
+    plan = case["sigplan"]
+    info = res.get("real", {})
+    labels = ["real_processes", "SIGINT" if plan["sig"] == signal.SIGINT else "SIGTERM"]
+    summ = obs.brief()
+    summ["sigplan"] = plan
+    summ["real"] = {k: v for k, v in info.items() if k != "pid"}
+    v = []
+    if res["status"] == "deadlock":
+        return Outcome([("deadlock_after_abort", res.get("detail"))], labels, True, summ)
+    if not info.get("signal_sent"):
+        return Outcome([], labels + ["real_cond_finished_before_the_signal"], False, summ)
+    if res.get("died_by_default"):
+        return Outcome([("signal_never_deliverable", "a real signal sent after Conductor had started printing its run met the "
+                         "default disposition: cond died without terminating its tasks")], labels, True, summ)
+    running = info.get("running_at_signal", [])
+    if running:
+        labels.append("real_inflight_at_signal")
+    if len(running) >= 2:
+        labels.append("real_two_inflight_at_signal")
+    # (a) nobody outlives cond
+    for pid in res["kernel"]["running_at_end"]:
+        p = obs.procs.get(pid)
+        v.append(("not_terminated_real", "%s (pid %d) went on running after cond run had exited: it was never sent SIGTERM "
+                  "(real %s, %d task(s) running when it was sent)" % (p["task"] if p else "?", pid, labels[1], len(running))))
+    # (b) exit status / diagnostic
+    rep = model.parse_report(obs.stdout())
+    stderr = obs.stderr()
+    if res.get("uncaught") == "ConductorAbort":
+        labels.append("real_signal_after_main")        # handled outside Conductor's main(): nothing to judge
+    elif res.get("uncaught"):
+        v.append(("internal_error:%s_real" % res["uncaught"], "a real %s ended in an internal error: %s"
+                  % (labels[1], res["uncaught_tb"].strip().splitlines()[-1])))
+    elif res["status"] == 0:
+        if rep["done"]:
+            labels.append("real_signal_after_completion")   # (or swallowed inside __del__, the open finding D8(iv))
+        else:
+            v.append(("exit_zero_real", "a real %s was sent while tasks were outstanding, cond run exited 0 without having completed" % labels[1]))
+    elif ABORT_MSG not in stderr:
+        v.append(("no_abort_message_real", "non-zero exit without the abort diagnostic after a real %s; stderr=%r" % (labels[1], stderr[-200:])))
+    else:
+        labels.append("real_aborted")
+    # (c) rows only for tasks that finished by themselves with status 0
+    ok_tasks = {p["task"] for p in obs.procs.values() if p["status"] == 0}
+    new_rows = {r[0] for r in set(res["rows_after"]) - set(res["rows_before"])}
+    for t in sorted(new_rows - ok_tasks):
+        v.append(("row_for_unfinished_task_real", "version recorded for %s which had not exited 0" % t))
+    return Outcome(v, sorted(set(labels)), bool(running), summ)
+
+
 def run_case(case):
+    if case.get("layer") == "real":
+        return check_real(case, reallayer.run_real(case))
     base = {k: v for k, v in case.items() if k not in ("sig", "k", "kfrac", "fixed", "at2")}
     if "k" in case:
         k = case["k"]
